@@ -2044,6 +2044,10 @@ func (cpu *CPU) op_mvn() {
 		cpu.RX++
 	}
 
+	// the count is the full 16-bit C accumulator; with m=1 it lives in RAh:RAl
+	if cpu.M == 1 {
+		cpu.RA = uint16(cpu.RAh)<<8 | uint16(cpu.RAl)
+	}
 	cpu.RA--
 	cpu.RAl = uint8(cpu.RA & 0x00ff)
 	cpu.RAh = uint8(cpu.RA >> 8)
@@ -2068,6 +2072,10 @@ func (cpu *CPU) op_mvp() {
 		cpu.RX--
 	}
 
+	// the count is the full 16-bit C accumulator; with m=1 it lives in RAh:RAl
+	if cpu.M == 1 {
+		cpu.RA = uint16(cpu.RAh)<<8 | uint16(cpu.RAl)
+	}
 	cpu.RA--
 	cpu.RAl = uint8(cpu.RA & 0x00ff)
 	cpu.RAh = uint8(cpu.RA >> 8)
